@@ -395,7 +395,14 @@ class Balance:
                     alias[e.res] = res(e.args[0])
                     if res(e.args[0]) in bal and bal[res(e.args[0])] > 0:
                         moved[res(e.args[0])] = e
-                    bump(e.args[0], -1, "cbor_move", e)
+                    if res(e.args[0]) not in bal:
+                        # giving up a reference this function never held (an element read straight out of a container's storage):
+                        # the holder's reference is gone without the holder knowing - recorded as a debt
+                        t = res(e.args[0])
+                        bal[t] = 0
+                        hist[t] = []
+                        acq[t] = e
+                    bump(e.args[0], -1, "cbor_move of a reference not acquired here" if not hist[res(e.args[0])] else "cbor_move", e)
                 elif c == "cbor_intermediate_decref":
                     bump(e.args[0], -1, "cbor_intermediate_decref", e)
                 elif c == "cbor_decref":
